@@ -172,7 +172,9 @@ func (c *Class) Evaluation(
 
 		parentNode := base.ClassNode{Frame: parentFrame, Class: parentClass}
 
-		if !slices.Contains(base.ClassInheritanceMap[classNode], parentNode) {
+		if !slices.Contains(base.ClassInheritanceMap[classNode], parentNode) &&
+			!base.IsInheritanceCycle(classNode, parentNode) {
+
 			base.ClassInheritanceMap[classNode] =
 				append(base.ClassInheritanceMap[classNode], parentNode)
 		}
